@@ -1,5 +1,5 @@
 """Ring/trace units for KZG10 (C20): the aggregated opening witness and the batched check."""
-from vlib.ring import (Unit, Sym, VArr, VTuple, VOpaque, VLabel, VStruct, VOk, VErr, VCoeffVec, UNIT, as_poly as P, sym, vec,
+from vlib.ring import (VIter, Unit, Sym, VArr, VTuple, VOpaque, VLabel, VStruct, VOk, VErr, VCoeffVec, UNIT, as_poly as P, sym, vec,
                        OutsideFragment, canon)
 from vlib.poly import Poly, S, C
 import widgets as w
@@ -138,3 +138,33 @@ def c_from_raw_var_bytes(it, recv, a):
 CONTRACTS["G1Affine::from_slice_unchecked"] = lambda it, recv, a: VOpaque("G1Affine::from_slice_unchecked", [a[0]])
 unit("kzg.CommitKey::from_raw_var_bytes", KEY, "CommitKey::from_raw_var_bytes", [("bytes", sym("bytes"))], c_from_raw_var_bytes,
      vf.out_verify, trace_only=True, tracked=("powers_of_g", "point", "chunk", "point_is_valid"))
+
+
+# ------------------------------------------------------------------ AggregateProof::flatten (instances: k parts)
+def mk_aggregate(k):
+    return lambda: VStruct("AggregateProof", {"commitment_to_witness": Sym("W"), "evaluated_points": VArr([Sym(f"e{i}") for i in range(k)], "vec"),
+                                              "commitments_to_polynomials": VArr([Sym(f"C{i}") for i in range(k)], "vec")})
+
+
+def c_flatten(k):
+    def c(it, recv, a):
+        """the single opening claim  sum_i v^i e_i  against  sum_i v^i C_i  with POSITIONAL, pairwise distinct powers v^0 .. v^(k-1);
+        the witness commitment is passed through"""
+        v = P(a[0])
+        ev = sum((P(Sym(f"e{i}")) * (v ** i) for i in range(k)), P(0))
+        cm = sum((P(Sym(f"C{i}.0")) * (v ** i) for i in range(k)), P(0))
+        return VStruct("Proof", {"commitment_to_witness": Sym("W"), "evaluated_point": ev, "commitment_to_polynomial": cm})
+    return c
+
+
+def _c_powers_of(it, recv, a):
+    x, d = P(a[0]), a[1]
+    if not isinstance(d, int):
+        raise OutsideFragment("powers_of with symbolic degree")
+    return VArr([x ** i for i in range(d + 1)], "vec")
+
+
+for k_ in range(1, 8):
+    u = unit(f"kzg.AggregateProof.flatten[{k_}]", "src/commitment_scheme/kzg10/proof.rs", "alloc::AggregateProof::flatten",
+             [("self", mk_aggregate(k_)), ("v_challenge", sym("v"))], c_flatten(k_), lambda res, args, ctx: {"result": res})
+    u.extra_contracts = {"powers_of": _c_powers_of, ".par_iter": lambda it, recv, a: VIter(list(recv.items)) if isinstance(recv, VArr) else NotImplemented}
